@@ -499,7 +499,7 @@ var specBuiltins = map[string]string{
 	"seqlen": "V_seqlen", "seqat": "V_seqat", "kindof": "V_kindof", "payloadInt": "V_payloadInt",
 	"payloadStr": "V_payloadStr", "payloadF64": "V_payloadF64", "payloadBool": "V_payloadBool", "boxof": "V_boxof",
 	"isIntegral": "V_isIntegral", "isFinite": "V_isFinite", "toReal": "V_toReal", "hasPrefix": "V_hasPrefix", "hasSuffix": "V_hasSuffix", "contains": "V_contains", "after": "V_after",
-	"elemsfresh": "V_elemsfresh", "sameslice": "V_sameslice", "realOfInt": "V_realOfInt", "real": "V_real",
+	"elemsfresh": "V_elemsfresh", "sameslice": "V_sameslice", "samebase": "V_samebase", "realOfInt": "V_realOfInt", "real": "V_real",
 	"rlt": "V_rlt", "rle": "V_rle", "req": "V_req", "isNaN": "V_isNaN", "fresherThan": "V_fresherThan",
 	"concat": "V_concat", "sliceprefix": "V_sliceprefix", "runeCount": "V_runeCount", "first": "V_first", "second": "V_second", "runeAt": "V_runeAt", "strcat": "V_strcat", "fnv32": "V_fnv32", "nonNilPayload": "V_nonNilPayload", "strOfSeq": "V_strOfSeq", "payloadRef": "V_payloadRef", "cap": "cap", "sameref": "V_sameref", "comparable": "V_comparable", "distinctbase": "V_distinctbase",
 	"itoa": "V_itoa", "atoi": "V_atoi", "parseIntOk": "V_parseIntOk", "parseUintOk": "V_parseUintOk", "isDecimal": "V_isDecimal", "parseFloat": "V_parseFloat", "isDecInt": "V_isDecInt",
@@ -785,6 +785,7 @@ func V_rle(a, b V_Real) bool { return true }
 func V_req(a, b V_Real) bool { return true }
 func V_hasPrefix(s, p string) bool { return true }
 func V_hasSuffix(s, p string) bool { return true }
+func V_samebase(a, b any) bool { return true }
 func V_contains(s, p string) bool { return true }
 func V_after(s, sep string) string { return "" }
 `
